@@ -146,6 +146,58 @@ def mp2_check(case):
     return ok, f"E0,E1,E2 = {e0},{e1},{e2}; textbook {ref0},{ref1},{ref2}"
 
 
+# --- closed amplitudes requested with target indices in any order ----------------------------
+def amp_perm_cases(tier, seed):
+    for s in ("jiab", "ijba", "jiba", "baij", "bjai"):
+        yield {"order": 1, "space": "pphh", "canonical": "ijab", "indices": s}
+    if tier != "quick":
+        for s in ("jiab", "ijba"):
+            yield {"order": 2, "space": "pphh", "canonical": "ijab", "indices": s, "distinct": True}
+        for s in ("jikabc", "ijkacb", "kjicab"):
+            yield {"order": 2, "space": "ppphhh", "canonical": "ijkabc", "indices": s}
+
+
+def _perm_sign(seq, ref):
+    p = [ref.index(x) for x in seq]
+    sign = 1
+    for x in range(len(p)):
+        for y in range(x + 1, len(p)):
+            if p[x] > p[y]:
+                sign = -sign
+    return sign
+
+
+def amp_perm_check(case):
+    """t(n; indices as requested) at an orbital assignment of the named indices is the canonical
+    request at the same assignment times the signs of the permutations of the occupied and of
+    the virtual indices (the amplitude is the coefficient of a^+_a a^+_b ... a_j a_i)"""
+    gs = GroundState(Operators("mp"))
+    i, j, a, b = get_symbols("ijab")
+    t1 = gs.mp_amplitude(1, "pphh", "ijab")
+    orbs = orbital_space(1, 1)
+    model = MPModel(orbs, 5, t1, (i, j, a, b))
+    ref = gs.mp_amplitude(case["order"], case["space"], case["canonical"])
+    got = gs.mp_amplitude(case["order"], case["space"], case["indices"])
+    names = case["canonical"]
+    occ = [c for c in case["indices"] if c in "ijk"]
+    virt = [c for c in case["indices"] if c in "abc"]
+    sign = _perm_sign(occ, sorted(occ)) * _perm_sign(virt, sorted(virt))
+    syms = {c: get_symbols(c)[0] for c in names}
+    ranges = [index_range(syms[c], orbs) for c in names]
+    nonzero = 0
+    for combo in itertools.product(*ranges):
+        if case.get("distinct") and len(set(combo)) < len(combo):
+            continue        # quick tier: elements with a repeated orbital (they vanish) are skipped
+        asg = {syms[c]: o for c, o in zip(names, combo)}
+        r, g = evaluate(ref, asg, model), evaluate(got, asg, model)
+        nonzero += r != 0
+        if g != sign * r:
+            return False, (f"mp_amplitude({case['order']}, '{case['space']}', '{case['indices']}') has value {g} at "
+                           f"{ {c: o for c, o in zip(names, combo)} }, the canonical request '{names}' gives {r} "
+                           f"(expected factor {sign})")
+    return nonzero > 0, f"{nonzero} non vanishing elements compared"
+
+
 # --- norm factor: series of 1 / <Psi|Psi> ------------------------------------------------
 def nf_cases(tier, seed):
     for n in range(0, 5 if tier == "quick" else 6):
@@ -181,6 +233,9 @@ CHECKS = {
     "expand_norm_factor.taylor": {
         "function": "adcgen.groundstate:GroundState.expand_norm_factor", "cases": enf_cases,
         "check": enf_check, "bound": "order < 7 (10), min_order 1..3: [( (-1)^k, compositions(n,k,m) )]"},
+    "mp_amplitude.index_order": {
+        "function": "adcgen.groundstate:GroundState.mp_amplitude", "cases": amp_perm_cases, "check": amp_perm_check,
+        "bound": "first order doubles (thorough: also second order doubles and triples) requested with 5 (2, 3) non canonical orders of the target indices: value = sign of the permutation times the canonical request at every orbital assignment, 2 occ + 2 virt spin orbitals"},
     "energy.mp2_textbook": {
         "function": "adcgen.groundstate:GroundState.energy", "cases": mp2_cases, "check": mp2_check,
         "bound": "E(0), E(1), E(2) with the library's first order doubles vs. the textbook formulas, 2 occ + 2 virt spin orbitals, random canonical HF model"},
